@@ -31,6 +31,17 @@ def main():
         from harness import pipe_ops as PO
         rec = PO.Recorder(json.loads(os.environ.get('VERIF_REC_OPTS', '{}')))
         PO.install(rec)
+        import logging
+
+        class _H(logging.Handler):
+            def emit(self, record):
+                try:
+                    msg = record.getMessage()
+                except Exception:
+                    return
+                if msg.startswith('Detected ') and 'invalid lines' in msg:
+                    rec.log(e='invalid', n=int(msg.split()[1]))
+        logging.getLogger().addHandler(_H(level=logging.INFO))
         import outrank.task_ranking as TR
         TR.estimate_importances_minibatches = CR.estimate_importances_minibatches
     sys.argv = ['outrank'] + argv
